@@ -81,3 +81,66 @@ pub mod prelude {
     // conde is the only non-built-in operator exported by default.
     pub use crate::operator::conde::conde;
 }
+
+/// Verification hooks (compiled only with `--cfg terohuttunen_proto_vulcan_verif`): a per-thread
+/// budget and counter for the engine steps taken by `Solver::next` and by `Solver::peek`/`trunc`.
+#[cfg(terohuttunen_proto_vulcan_verif)]
+pub mod verif {
+    use std::cell::Cell;
+
+    thread_local! {
+        static NEXT_BUDGET: Cell<u64> = Cell::new(u64::MAX);
+        static INNER_CAP: Cell<u64> = Cell::new(u64::MAX);
+        static NEXT_STEPS: Cell<u64> = Cell::new(0);
+        static INNER_STEPS: Cell<u64> = Cell::new(0);
+        static EXHAUSTED: Cell<u8> = Cell::new(0);
+    }
+
+    /// Reset the counters and set the budgets.
+    pub fn reset(next_budget: u64, inner_cap: u64) {
+        NEXT_BUDGET.with(|c| c.set(next_budget));
+        INNER_CAP.with(|c| c.set(inner_cap));
+        NEXT_STEPS.with(|c| c.set(0));
+        INNER_STEPS.with(|c| c.set(0));
+        EXHAUSTED.with(|c| c.set(0));
+    }
+
+    pub fn next_steps() -> u64 {
+        NEXT_STEPS.with(|c| c.get())
+    }
+
+    pub fn inner_steps() -> u64 {
+        INNER_STEPS.with(|c| c.get())
+    }
+
+    /// 0 = no, 1 = the `next` budget ran out, 2 = the inner cap ran out
+    pub fn exhausted() -> u8 {
+        EXHAUSTED.with(|c| c.get())
+    }
+
+    pub(crate) fn tick_next() -> bool {
+        if EXHAUSTED.with(|c| c.get()) != 0 {
+            return false;
+        }
+        let n = NEXT_STEPS.with(|c| c.get());
+        if n >= NEXT_BUDGET.with(|c| c.get()) {
+            EXHAUSTED.with(|c| c.set(1));
+            return false;
+        }
+        NEXT_STEPS.with(|c| c.set(n + 1));
+        true
+    }
+
+    pub(crate) fn tick_inner() -> bool {
+        if EXHAUSTED.with(|c| c.get()) != 0 {
+            return false;
+        }
+        let n = INNER_STEPS.with(|c| c.get());
+        if n >= INNER_CAP.with(|c| c.get()) {
+            EXHAUSTED.with(|c| c.set(2));
+            return false;
+        }
+        INNER_STEPS.with(|c| c.set(n + 1));
+        true
+    }
+}
